@@ -50,7 +50,27 @@ func runC09(r *R) {
 			}
 		}
 	}
+	// some uri / uripost entries are written as absolute URLs (with either scheme): host and scheme of the ammo URL
+	// must not decide where and how the request is sent, only the Host header
+	absHost := map[string]string{}
+	if format == "uri" || format == "uripost" {
+		for i := range items {
+			if q := items[i].Req; q != nil && w.Draw(5) == 0 {
+				h := []string{"abs.example.com", "shop.example.com:8443"}[w.Draw(2)]
+				scheme := []string{"http", "https"}[w.Draw(2)]
+				absHost[q.URI] = h
+				q.URI = scheme + "://" + h + q.URI
+			}
+		}
+	}
 	file := renderFile(format, items, l)
+	for i := range items {
+		if q := items[i].Req; q != nil {
+			if j := strings.Index(q.URI, "://"); j > 0 {
+				q.URI = q.URI[j+3+strings.Index(q.URI[j+3:], "/"):]
+			}
+		}
+	}
 	// configured headers: some collide with ammo headers (possibly in another case), some are new
 	var confHdr []string
 	confMap := map[string]string{} // canonical -> value (first wins, as Header.Add + values[0]/all)
@@ -90,6 +110,11 @@ func runC09(r *R) {
 		chunk = []int{0, 0, 1, 7, 100}[w.Draw(5)]
 	}
 	pass := expectedHTTP(format, items)
+	for i := range pass {
+		if h, ok := absHost[pass[i].URI]; ok {
+			pass[i].Host = h // the host written in the entry's own URL is the ammo's Host
+		}
+	}
 	n := len(pass)
 	for _, g := range pass {
 		for ck := range confMap {
